@@ -87,7 +87,7 @@ static double hl(const float* abcd, double phi_deg) {
   return abcd[0] * std::cos(p) + abcd[1] * std::sin(p) + abcd[2] * std::cos(2 * p) + abcd[3] * std::sin(2 * p);
 }
 
-enum { cH, cK, cL, cF, cPHI, cA, cB, cC, cD, cFP, cFM, cDANO, NCOL };
+enum { cH, cK, cL, cF, cPHI, cA, cB, cC, cD, cFP, cFM, cDANO, cFP2, cFM2, NCOL };
 
 static void init_merged(Mtz& mtz, const SpaceGroup& sg) {
   mtz.set_spacegroup(&sg);
@@ -98,6 +98,10 @@ static void init_merged(Mtz& mtz, const SpaceGroup& sg) {
   const char types[] = {'F', 'P', 'A', 'A', 'A', 'A', 'G', 'G', 'D'};
   for (int i = 0; i < 9; ++i)
     mtz.add_column(labels[i], types[i], 1, -1, false);
+  // a second dataset that uses the same labels for its own (+)/(-) pair (half the values of the first)
+  mtz.add_dataset("ds2");
+  mtz.add_column("F(+)", 'G', 2, -1, false);
+  mtz.add_column("F(-)", 'G', 2, -1, false);
 }
 
 static std::vector<float> truth_row(const Truth& t, const GroupOps& gops, const Miller& h, Lcg& rng) {
@@ -111,6 +115,8 @@ static std::vector<float> truth_row(const Truth& t, const GroupOps& gops, const 
   r[cFP] = (float) std::abs(Fp);
   r[cFM] = centric ? NAN : (float) std::abs(Fm);
   r[cDANO] = centric ? 0.f : r[cFP] - r[cFM];
+  r[cFP2] = 0.5f * r[cFP];
+  r[cFM2] = 0.5f * r[cFM];
   return r;
 }
 
@@ -156,6 +162,9 @@ static std::string check_row(const Truth& t, const GroupOps& gops, const float* 
     } else if (!std::isnan(row[cFM])) {
       return "F(-) of centric";
     }
+    // the second dataset carries its own (+)/(-) pair under the same labels: half the values of the first
+    auto same = [](float a, float b) { return (std::isnan(a) && std::isnan(b)) || std::fabs(a - b) <= 1e-5f * (1 + std::fabs(b)); };
+    if (!same(row[cFP2], 0.5f * row[cFP]) || !same(row[cFM2], 0.5f * row[cFM])) return "F(+)/F(-) of the second dataset";
   }
   return "";
 }
